@@ -192,7 +192,7 @@ func runC20(c C20Case) (st Stats, err error) {
 	}
 	var ret stackage.Stack
 	p := guard(func() { ret = root.Reveal() })
-	stackage.VerifHook = nil
+	InstallLockWatch()
 	if p != "" {
 		key := "reveal/panic"
 		if strings.Contains(p, "self-deadlock") {
@@ -298,6 +298,7 @@ func genC20(t *rapid.T, tier Tier) C20Case {
 			Mutex:  rapid.IntRange(0, 2).Draw(t, "mutex") == 0,
 			NegIdx: rapid.IntRange(0, 3).Draw(t, "negidx") == 0,
 			FwdIdx: rapid.IntRange(0, 3).Draw(t, "fwdidx") == 0,
+			Amb:    drawAmbient(t, true),
 		}
 		if depth > 0 {
 			n.Wrap = rapid.SampledFrom([]int{0, 0, 0, 0, WrapAlias, WrapAliasS, WrapPtr}).Draw(t, "wrap")
